@@ -57,6 +57,7 @@ func (p *Parser) ParseFunctionStatement() *ast.FunctionDeclaration {
 	}
 	p.PushContext(FunctionContext)
 	defer p.PopContext()
+	p.functionBodyNext = true
 	stmt.Body = p.ParseBlockStatement()
 	return stmt
 }
@@ -185,8 +186,13 @@ func (p *Parser) ParseForStatement() *ast.ForStatement {
 func (p *Parser) ParseBlockStatement() *ast.BlockStatement {
 	block := &ast.BlockStatement{Token: p.CurrentToken}
 	block.Statements = []ast.Statement{}
-	p.PushContext(BlockContext)
-	defer p.PopContext()
+	if p.functionBodyNext {
+		// the braces of a function body are the function context itself, not a block inside it
+		p.functionBodyNext = false
+	} else {
+		p.PushContext(BlockContext)
+		defer p.PopContext()
+	}
 	p.NextToken()
 	for p.CurrentToken.Type != token.RBRACE && p.CurrentToken.Type != token.EOF {
 		stmt := p.statementParseFn(p)
@@ -430,6 +436,7 @@ func (p *Parser) ParseFunctionExpression() ast.Expression {
 	}
 	p.PushContext(FunctionContext)
 	defer p.PopContext()
+	p.functionBodyNext = true
 	fe.Body = p.ParseBlockStatement()
 	return fe
 }
